@@ -92,6 +92,14 @@ def _tlc_failed(r: tlc.TLCResult) -> str | None:
     return None
 
 
+def _run_tlc(*a, **kw) -> tlc.TLCResult:
+    """run_tlc, repeated once when the JVM was killed from outside (shared machine)."""
+    r = tlc.run_tlc(*a, **kw)
+    if r.rc in (137, 143, -9, -15):
+        r = tlc.run_tlc(*a, **kw)
+    return r
+
+
 def _action_cov(r: tlc.TLCResult, names) -> dict:
     cov = r.coverage()
     return {n: cov.get(n, 0) for n in names}
@@ -122,7 +130,7 @@ def judge(root: str, obs: list[dict], consts: str, shards: int = 1) -> tuple[dic
     err = None
     try:
         with ThreadPoolExecutor(max_workers=min(len(jobs), 8)) as ex:
-            futs = [ex.submit(tlc.run_tlc, rd, root, cfg, 2, {"OBS_FILE": path}, 3000, ["-coverage", "1"])
+            futs = [ex.submit(_run_tlc, rd, root, cfg, 2, {"OBS_FILE": path}, 3000, ["-coverage", "1"])
                     for (_, _, rd, path, cfg) in jobs]
             for (base, n, _, _, _), fu in zip(jobs, futs):
                 r = fu.result()
@@ -238,7 +246,7 @@ def graph_part(tier: str, seed: int, rep: evidence.Reporter, pool, corrupt: bool
     try:
         cfg = ("CONSTANTS\n  Refs = {%s}\n  MaxLen = %d\nINIT Init\nNEXT Next\nSYMMETRY LetterSym\n"
                "INVARIANT Export\nINVARIANT DefsAgree\nCHECK_DEADLOCK FALSE\n" % (", ".join(GRAPH_LETTERS), maxlen))
-        r = tlc.run_tlc(rd, "MC_Graph", cfg, workers=16, extra=["-coverage", "1"])
+        r = _run_tlc(rd, "MC_Graph", cfg, workers=16, extra=["-coverage", "1"])
     finally:
         shutil.rmtree(rd, ignore_errors=True)
     bad = _tlc_failed(r)
@@ -272,9 +280,13 @@ def graph_part(tier: str, seed: int, rep: evidence.Reporter, pool, corrupt: bool
     _dbg("graph replay done")
     classes: dict[str, int] = {}
     disagree = 0
+    pred_classes: dict[str, int] = {}
     for o in obs:
         key = ("valid" if o["created"] else o["kind"])
         classes[key] = classes.get(key, 0) + 1
+        if "pred" in o:
+            pk = "valid" if o["pred"]["valid"] else o["pred"]["kind"]
+            pred_classes[pk] = pred_classes.get(pk, 0) + 1
         if o.get("agree") is False:
             disagree += 1
     letters = sorted({x for o in obs for (rf, q) in o["g"] for x in [rf, *q]})
@@ -285,24 +297,29 @@ def graph_part(tier: str, seed: int, rep: evidence.Reporter, pool, corrupt: bool
         rep.machinery_failure("Obs_Graph: " + err)
         return {}
     drift = 0
+    ggroups: dict[tuple, list] = {}
     for idx, fl in sorted(fails.items()):
         names = [f for f, _ in fl]
-        hard = [f for f in names if f in GRAPH_VIOL]
+        hard = tuple(sorted(f for f in names if f in GRAPH_VIOL))
         if hard:
             o = obs[idx]
-            rep.violation(f"graph {o['g']}: {hard} false; code: created={o['created']} kind={o['kind']} "
-                          f"order={o['order']} sortexc={o['sortexc']!r}",
-                          {"part": "graph", "formula": hard[0], "kind": o["kind"]},
-                          {"kind": "graph", "g": o["g"], "failed": names})
+            ggroups.setdefault((hard, (o.get("pred") or {}).get("kind", "?"), o["kind"]), []).append(o)
         else:
             drift += 1
+    for (hard, pk, ok), items in sorted(ggroups.items()):
+        o = items[0]
+        rep.violation(f"{list(hard)} false for {len(items)} graph(s) (specification: {pk}; code reported: {ok}); first: "
+                      f"{o['g']} -> created={o['created']} order={o['order']} sortexc={o['sortexc']!r}",
+                      {"part": "graph", "formula": hard[0], "kind": ok, "spec_kind": pk},
+                      {"kind": "graph", "g": o["g"], "failed": list(hard), "count": len(items),
+                       "more": [x["g"] for x in items[1:6]]})
     if disagree and not fails:
         rep.machinery_failure(f"{disagree} graph replays differ from MC_Graph's prediction but Obs_Graph accepted them")
     for need in ("valid", "duplicate_ref", "self_edge", "unknown_ref", "cycle"):
-        if not classes.get(need):
-            rep.machinery_failure("vacuity: no graph of class " + need)
+        if not pred_classes.get(need):
+            rep.machinery_failure("vacuity: MC_Graph enumerated no graph of class " + need)
     return {"bound": {"letters": len(GRAPH_LETTERS), "max_stages": maxlen, "symmetry": "letter permutations"},
-            "enumerated_graphs": n_enum, "random_graphs": n_rand, "classes_observed": classes,
+            "enumerated_graphs": n_enum, "random_graphs": n_rand, "classes_enumerated": pred_classes, "classes_observed": classes,
             "mc_states": r.distinct, "mc_transitions": r.generated, "mc_wall_s": round(r.wall, 1),
             "action_AddStage_states": cov_add, "defs_agree_checked_on": r.distinct,
             "judge_states": jst["states"], "judge_transitions": jst["transitions"], "judge_wall_s": round(jst["wall"], 1),
@@ -474,9 +491,11 @@ def eval_observe(text: str, ctx_enc) -> dict:
 
     ctx = ctx_enc
     before = copy.deepcopy(ctx)
-    o = {"kind": "value", "v": ["N"], "exc": ""}
+    o = {"kind": "value", "v": ["N"], "exc": "", "truthy": "F"}
     try:
-        o["v"] = enc_value(evaluate_expression(text, ctx))
+        val = evaluate_expression(text, ctx)
+        o["v"] = enc_value(val)
+        o["truthy"] = "T" if val else "F"     # recorded, used by Obs_Expr only for values outside its universe
     except ExpressionError:
         o["kind"] = "experr"
     except BaseException as e:  # noqa: BLE001  judged by TLC (C20_Total)
@@ -614,7 +633,7 @@ def _run_mc_expr(consts: dict) -> tlc.TLCResult:
     try:
         cfg = "CONSTANTS\n" + "".join(f"  {k} = {v}\n" for k, v in consts.items()) + \
             "INIT Init\nNEXT Next\nINVARIANT Export\nCHECK_DEADLOCK FALSE\n"
-        return tlc.run_tlc(rd, "MC_Expr", cfg, workers=16, extra=["-coverage", "1"], timeout=2400)
+        return _run_tlc(rd, "MC_Expr", cfg, workers=16, extra=["-coverage", "1"], timeout=2400)
     finally:
         shutil.rmtree(rd, ignore_errors=True)
 
@@ -911,7 +930,7 @@ def classify_expr(o: dict, failed: list[tuple[str, str]]) -> tuple | None:
 def judge_expr(rep: evidence.Reporter, suspects: list[dict], fuzz: list[dict]) -> dict:
     def enc_of(what, o, ast_):
         return {"what": what, "ast": ast_, "ctx": o["ctx"], "kind": o["kind"], "pure": o["pure"],
-                "v": o.get("v", ["N"]), "skip": o.get("skip", "F"), "act0": o.get("act0", []), "act1": o.get("act1", [])}
+                "truthy": o.get("truthy", "F"), "v": o.get("v", ["N"]), "skip": o.get("skip", "F"), "act0": o.get("act0", []), "act1": o.get("act1", [])}
 
     enc, src = [], []
     for o in suspects:
@@ -1099,10 +1118,10 @@ def replay(pid: str, path: str) -> int:
         for n in new:
             if o["what"] == "fuzz":
                 enc_obs.append({"what": "fuzz", "ast": ["name", "x"], "ctx": n["ctx"], "kind": n["kind"], "pure": n["pure"],
-                                "v": ["N"], "skip": "F", "act0": [], "act1": []})
+                                "truthy": "F", "v": ["N"], "skip": "F", "act0": [], "act1": []})
             else:
                 enc_obs.append({"what": o["what"], "ast": ["name", "x"], "ctx": n["ctx"], "kind": n[o["what"] + "_kind"],
-                                "pure": "T", "v": ["N"], "skip": "F", "act0": [], "act1": []})
+                                "pure": "T", "truthy": "F", "v": ["N"], "skip": "F", "act0": [], "act1": []})
             src.append(n)
     else:
         ctxs = _load_ctxs()
@@ -1113,7 +1132,7 @@ def replay(pid: str, path: str) -> int:
             sk, sp = engine_observe(render(o["ast"]), ctx)
             n = sk if o["what"] == "skip" else sp
         enc_obs = [{"what": o["what"], "ast": o["ast"], "ctx": o["ctx"], "kind": n["kind"], "pure": n["pure"],
-                    "v": n.get("v", ["N"]), "skip": n.get("skip", "F"), "act0": n.get("act0", []), "act1": n.get("act1", [])}]
+                    "truthy": n.get("truthy", "F"), "v": n.get("v", ["N"]), "skip": n.get("skip", "F"), "act0": n.get("act0", []), "act1": n.get("act1", [])}]
         src = [n]
     fails, _, err = judge("Obs_Expr", enc_obs, "")
     if err:
